@@ -37,6 +37,12 @@ CHECKS = {
              "runs on symbolic keys, so every ordering and tie is a path); z3 proves min-priority/max-weight selection, field preservation, dot stripping, the "
              "queried name/type/search flag and sync==async.",
         note="Trusted: interpreter, z3, resolver stub. More than 5 records and unlisted domain strings are outside the claim."),
+    "C12": dict(
+        text="Every pack/unpack pair of the DCE/RPC PDUs, security trailer, verification-trailer commands, tower floors and ept_map messages is executed on messages whose "
+             "fields are solver variables over their wire widths (list sizes and payload lengths listed); z3 proves repack(unpack(pack(x))) == pack(x) and field "
+             "equality on every path. Every decoder is also run on every byte string of the listed short lengths, where each path must end within the step budget.",
+        note="Trusted: interpreter, z3. List sizes / payload lengths not listed and arbitrary buffers longer than 16 (36 for PDUs) bytes are outside the claim; a security "
+             "trailer with an empty auth value is treated as not well-formed (auth_length 0 means no trailer)."),
 }
 
 _PENDING = "check not built yet in this round (work in progress; see DESIGN.md for the plan)"
